@@ -87,6 +87,7 @@ def tfStep (d : D) (ws : List String) : String × D :=
 end E8
 
 def stepLine (d : E8.D) (line : String) : String × E8.D :=
+  if line.startsWith "#" then (line, d) else
   match words line with
   | "tf" :: ws => E8.tfStep d ws
   | "sp" :: ws => (Nsq.Model.Split.driverLine ws, d)
